@@ -11,6 +11,7 @@ META = {
 
 def run(run, model):
     run.do(gates.c16_phases, model)
+    run.do(gates.c01_gate, model, "C16.pre-gate-first")
     run.do(inv.phases, model, "C16.inv-phases")
     run.do(inv.ctor, model, "C16.inv-ctor")
     run.do(inv.meta_reapply, model, "C16.meta-order", None)
